@@ -383,11 +383,15 @@ theorem grow_watchIo (st : St) (fd : Int) (cond flags : Nat) (slot : Int) : Grow
   exact ((((grow_alloc st _).trans (grow_evloopIo _ _ _ _)).trans (grow_setEvi _ _ _)).trans
     (grow_insertWatch _ _ _ _)).trans (grow_with_iow _ _)
 
+theorem grow_watchSignalPre (st : St) (signum : Int) (flags : Nat) (slot : Int) :
+    Grow st (watchSignalPre st signum flags slot) := by
+  unfold watchSignalPre
+  exact ((grow_alloc st _).trans (grow_evloopSignal _ _)).trans (grow_setEvi _ _ _)
+
 theorem grow_watchSignal (st : St) (signum : Int) (flags : Nat) (slot : Int) :
     Grow st (watchSignal st signum flags slot).1 := by
   unfold watchSignal
-  exact ((((grow_alloc st _).trans (grow_evloopSignal _ _)).trans (grow_setEvi _ _ _)).trans
-    (grow_insertWatch _ _ _ _)).trans (grow_with_signals _ _)
+  exact ((grow_watchSignalPre st _ _ _).trans (grow_insertWatch _ _ _ _)).trans (grow_with_signals _ _)
 
 theorem grow_waitpid (st : St) (pid : Int) : Grow st (waitpid st pid).st := by
   unfold waitpid
@@ -1008,12 +1012,12 @@ theorem pres_sigCb (fuel : Nat) (st : St) (a : Nat) (s : Int) : Pres st (sigCb f
       · exact Pres.refl _
   · exact Pres.refl _
 
-theorem pres_sigwatchLoop (fuel : Nat) : ∀ (st : St) (s : Int) (this : Option Nat), Pres st (sigwatchLoop fuel st s this) := by
+theorem pres_sigwatchLoopT (fuel : Nat) : ∀ (st : St) (s : Int) (this : Option Nat), Pres st (sigwatchLoopT fuel st s this).1 := by
   induction fuel with
-  | zero => intro st s this; unfold sigwatchLoop; exact pres_outOfFuel st
+  | zero => intro st s this; unfold sigwatchLoopT; exact pres_outOfFuel st
   | succ n ih =>
     intro st s this
-    unfold sigwatchLoop
+    unfold sigwatchLoopT
     split
     · exact Pres.refl _
     · split
@@ -1025,6 +1029,9 @@ theorem pres_sigwatchLoop (fuel : Nat) : ∀ (st : St) (s : Int) (this : Option 
           · split
             · exact (pres_sigCb _ _ _ _).trans (grow_fail _ _).pres
             · exact (pres_sigCb _ _ _ _).trans (ih _ _ _)
+
+theorem pres_sigwatchLoop (fuel : Nat) (st : St) (s : Int) (this : Option Nat) : Pres st (sigwatchLoop fuel st s this) :=
+  pres_sigwatchLoopT fuel st s this
 
 theorem pres_dispatchLoop (fuel : Nat) (pending : List Int) (l : List Int) : ∀ st : St, Pres st (dispatchLoop fuel st pending l) := by
   induction l with
